@@ -1,4 +1,5 @@
 import GroupbyVerif.Props.C04
+import GroupbyVerif.Props.C03
 import GroupbyVerif.Model.GroupBy
 
 /-!
@@ -75,5 +76,34 @@ theorem container_follows_input : outContainer true true = .polars ∧ outContai
 
 example : transformRows (groupByReduce (Scalar.nansum .f) (.num 0) [(0, .num 1), (1, .num 5), (0, .num 2)]) 2 [0, 1, -1, 0]
     = [.num 3, .num 5, .num 0, .num 3] := by decide
+
+/-- **transform = lookup, on the translated kernel**: fancy-indexing the `ngroups + 1` slots written by the translated
+`_group_by_reduce` with the row codes (numpy's wrap of `-1` to the last slot) gives every row with a valid code the
+per-group definition over the selected rows of its group, and every null-key row the untouched trailing slot's
+initial value -/
+theorem source_transform_eq_lookup (kn : Kernel) (k : Kind) (ng : Nat) (sel : List Row) (hsel : ∀ r ∈ sel, r.1 < ng)
+    (c : Int) :
+    let slots := (C03.srcRun kn k (ng + 1) sel).1
+    (0 ≤ c → slots (normI ((ng + 1 : Nat) : Int) c) = (specKernel kn k (valsOf sel c)).1) ∧
+    (c = -1 → slots (normI ((ng + 1 : Nat) : Int) c) = kn.init k) := by
+  intro slots
+  constructor
+  · intro h0
+    have hn : normI ((ng + 1 : Nat) : Int) c = c := by unfold normI; split <;> omega
+    rw [hn]
+    have h := C03.srcRun_eq kn k (ng + 1) sel c h0
+    rw [C04.kernel_eq_def _ _ _ _ h0] at h
+    exact congrArg Prod.fst h
+  · intro hm1
+    subst hm1
+    have hn : normI ((ng + 1 : Nat) : Int) (-1) = (ng : Int) := by unfold normI; simp; omega
+    rw [hn]
+    have h := C03.srcRun_eq kn k (ng + 1) sel (ng : Int) (by omega)
+    rw [untouched_slot_neutral _ _ sel (ng : Int) (by omega) (by intro r hr; have := hsel r hr; omega)] at h
+    exact congrArg Prod.fst h
+
+example :
+    let slots := (C03.srcRun .sum .f 3 [(0, .num 1), (1, .num 5), (0, .num 2)]).1
+    ([0, 1, -1, 0].map fun c => slots (normI 3 c)) = [.num 3, .num 5, .num 0, .num 3] := by decide
 
 end GV.C07
